@@ -2,7 +2,9 @@
 
 What is read (names and literals only):
   * the classes themselves (imported from $FE_REPO/python): `__members__` in definition order, aliases included,
-    as (name, int value); for the classes made by `enum_bitmask`: `_enum_offset`, `_enum_values` and the members;
+    as (name, int value); names vs members: the first name of every distinct value is a member, every later name of
+    that value an alias (checked against the interpreter: the alias maps to the same object); the generated table
+    states per class that this member list is the model's `canonicalMembers` of the body (`eN_members`); for the classes made by `enum_bitmask`: `_enum_offset`, `_enum_values` and the members;
   * cross-check against `ast.parse` of the defining module: the `NAME = <int literal>` lines of the class body must be
     the members the interpreter shows (so that run-time mutation of a class cannot hide a source change);
   * the width of the wire field an enum travels in: `AutoEnum(Int<N>ul, X)` calls in the package, else
@@ -98,6 +100,21 @@ def _wire_bits(repo):
     return bits
 
 
+def split_aliases(defn):
+    """Names vs members of a class body [(name, value)]: (members, aliases) where members = the first name of every distinct
+    value, in declaration order, as (name, value), and aliases = every later name of a value already defined, as
+    (alias name, name of the member it stands for).  len(E) counts members, not names."""
+    first = {}
+    members, aliases = [], []
+    for n, v in defn:
+        if v in first:
+            aliases.append((n, first[v]))
+        else:
+            first[v] = n
+            members.append((n, v))
+    return members, aliases
+
+
 def extract(repo):
     """Returns {'enums': [...], 'masks': [...], 'skipped': [...], 'import_failures': [...]} from the imported package.
     Must be called before any lenient conversion happened in this process."""
@@ -150,7 +167,13 @@ def extract(repo):
             for n, lv in src:
                 if (n, lv) not in defn and lv is not None:
                     raise ExtractError('%s.%s: source literal %s not among the interpreter members' % (q, n, lv))
-        enums.append({'qualname': q, 'short': c.__qualname__, 'bits': bits.get(c.__name__, 0), 'defn': defn, 'mask': is_mask})
+        members, aliases = split_aliases(defn)
+        # the interpreter's own reading of the same thing: an alias name maps to the member object of the first name
+        for n, first in aliases:
+            if c.__members__[n] is not c.__members__[first] or c.__members__[n].name != first:
+                raise ExtractError('%s.%s: not an alias of %s in the interpreter\'s table' % (q, n, first))
+        enums.append({'qualname': q, 'short': c.__qualname__, 'bits': bits.get(c.__name__, 0), 'defn': defn, 'mask': is_mask,
+                      'members': members, 'aliases': aliases})
         if is_mask:
             base = type(c._enum_values[0]) if c._enum_values else None
             masks.append({'qualname': q, 'offset': int(c._enum_offset),
@@ -190,6 +213,11 @@ def render(data):
             out.append(r + (',' if j + 1 < len(rows) else '') + '   -- %s = %d' % (n, v))
         out.append('  ]⟩')
         out.append('theorem e%d_ok : enumOk e%d.defn = true := by decide +kernel' % (i, i))
+        members = e.get('members', split_aliases(e['defn'])[0])
+        out.append('/-- %d names, %d members%s -/' % (len(e['defn']), len(members), ''.join(
+            '; %s is an alias of %s' % a for a in e.get('aliases', split_aliases(e['defn'])[1]))))
+        out.append('theorem e%d_members : membersAre e%d.defn [%s] = true := by decide +kernel' % (
+            i, i, ', '.join('(%s, %s)' % (_name(n), _int(v)) for n, v in members)))
         out.append('')
     n = len(data['enums'])
     out.append('def all : List PyEnum := [' + ', '.join('e%d' % i for i in range(n)) + ']')
